@@ -291,7 +291,7 @@ type MutOp struct {
 var CBORKinds = []string{"len", "indef", "depth", "dupkey", "reorder", "huge", "trunc", "type", "tag", "trail", "float", "width", "negint", "keytype", "null", "drop", "splice", "bigblob", "utf8", "simple"}
 
 // BinKinds lists the byte-level operators for the hand-written binary formats.
-var BinKinds = []string{"flip", "set", "trunc", "extend", "insert", "delete", "dup", "u16", "u32", "zero", "swap", "repeat"}
+var BinKinds = []string{"flip", "set", "trunc", "extend", "insert", "delete", "dup", "u16", "u32", "zero", "swap", "repeat", "lenfield"}
 
 // GenMutOp draws a corruption operator of the given family ("cbor" | "bin").
 func GenMutOp(r *core.Rand, family string) MutOp {
@@ -937,6 +937,39 @@ func MutateBytes(valid []byte, op MutOp) (out []byte, what string, applied bool)
 		vals := []uint32{0, 1, 0xffffffff, 0x7fffffff, 0x80000000, cur + 1, cur - 1, uint32(n), uint32(n - p), 0xfffffff0, 0x00010000}
 		binary.LittleEndian.PutUint32(d[p:], vals[op.V%len(vals)])
 		return done(fmt.Sprintf("u32 at %d: %d -> %d", p, cur, vals[op.V%len(vals)]))
+	case "lenfield":
+		// Length-field aware: a 16/32-bit field (either byte order) whose extent ends exactly at
+		// the end of the data, or at (or up to 4 bytes before) the header of such a field, is very
+		// likely a length field of a nested structure. It is rewritten so that its extent ends
+		// within 8 bytes of the end of the data (or of its old end): the boundary cases of the
+		// checks on what must still follow it.
+		fs := lenFields(valid)
+		if len(fs) == 0 {
+			return valid, "", false
+		}
+		f := fs[op.Sel%len(fs)]
+		target := n - op.V%9 // extent ends 0..8 bytes before the end of the data
+		switch op.N % 4 {
+		case 1:
+			target = f.end - 1 - op.V%8 // ... or a little before its old end
+		case 2:
+			target = f.end + 1 + op.V%8 // ... or a little behind it
+		}
+		nv := target - (f.off + f.width)
+		if nv < 0 || (f.width == 2 && nv > 0xffff) {
+			return valid, "", false
+		}
+		switch {
+		case f.width == 2 && f.le:
+			binary.LittleEndian.PutUint16(d[f.off:], uint16(nv))
+		case f.width == 2:
+			binary.BigEndian.PutUint16(d[f.off:], uint16(nv))
+		case f.le:
+			binary.LittleEndian.PutUint32(d[f.off:], uint32(nv))
+		default:
+			binary.BigEndian.PutUint32(d[f.off:], uint32(nv))
+		}
+		return done(fmt.Sprintf("length field (%d bytes, le=%v) at %d: %d -> %d (extent ends at %d of %d)", f.width, f.le, f.off, f.val, nv, target, n))
 	case "zero":
 		if n == 0 {
 			return valid, "", false
@@ -962,4 +995,77 @@ func MutateBytes(valid []byte, op MutOp) (out []byte, what string, applied bool)
 		return done(fmt.Sprintf("repeat x%d", k))
 	}
 	return valid, "", false
+}
+
+// lenField is a probable length field of a hand-written binary encoding.
+type lenField struct {
+	off, width int
+	le         bool
+	val, end   int
+}
+
+// lenFields finds probable length fields: level 0 = fields whose extent ends exactly at the end
+// of the data; level k+1 = fields whose extent ends at the offset of a level-k field or up to 4
+// bytes before it (a type tag in front of the length). Deterministic order (offset, width, le).
+func lenFields(b []byte) []lenField {
+	n := len(b)
+	if n < 8 || n > 1<<16 {
+		return nil
+	}
+	var all []lenField
+	for off := 0; off+2 <= n; off++ {
+		for _, w := range []int{2, 4} {
+			if off+w > n {
+				continue
+			}
+			for _, le := range []bool{true, false} {
+				var v int
+				switch {
+				case w == 2 && le:
+					v = int(binary.LittleEndian.Uint16(b[off:]))
+				case w == 2:
+					v = int(binary.BigEndian.Uint16(b[off:]))
+				case le:
+					v = int(binary.LittleEndian.Uint32(b[off:]))
+				default:
+					v = int(binary.BigEndian.Uint32(b[off:]))
+				}
+				if v <= 0 || off+w+v > n {
+					continue
+				}
+				all = append(all, lenField{off: off, width: w, le: le, val: v, end: off + w + v})
+			}
+		}
+	}
+	heads := map[int]bool{n: true}
+	var out []lenField
+	seen := map[[3]int]bool{}
+	for level := 0; level < 3; level++ {
+		next := map[int]bool{}
+		for _, f := range all {
+			k := [3]int{f.off, f.width, 0}
+			if f.le {
+				k[2] = 1
+			}
+			if seen[k] {
+				continue
+			}
+			hit := false
+			for d := 0; d <= 4; d += 2 {
+				if heads[f.end+d] && (level > 0 || d == 0) {
+					hit = true
+				}
+			}
+			if hit {
+				seen[k] = true
+				out = append(out, f)
+				next[f.off] = true
+			}
+		}
+		heads = next
+		if len(out) > 64 {
+			break
+		}
+	}
+	return out
 }
